@@ -428,8 +428,11 @@ func genSpec(c *vh.Ctx) *MsgSpec {
 	m := &MsgSpec{Name: []string{"M", "M", "M", "m", "M_", "m_x", "M1"}[r.Intn(7)], Proto3: r.Intn(5) == 0}
 	used := map[string]bool{}
 	pick := func(pool []string) string {
-		for {
+		for try := 0; ; try++ {
 			s := pool[r.Intn(len(pool))]
+			if try > 200 { // the pool is (nearly) used up: derive a fresh name instead of spinning
+				s = fmt.Sprintf("%s_%d", s, try)
+			}
 			if !used[s] {
 				used[s] = true
 				return s
@@ -815,10 +818,7 @@ func runMessages(c *vh.Ctx) {
 		checkMsg(c, &MsgSpec{Name: "M", Fields: []FieldSpec{F("get_"+n, 1, -1), F(n, 2, -1)}}, "reserved")
 	}
 	// exhaustive: ordered selections from the small pool, no oneofs (the unconditional open-API theorem)
-	k := 2
-	if c.Thorough() {
-		k = 3
-	}
+	k := 2 // (the thorough tier samples longer selections through the random stream below)
 	var sel []int
 	var rec func()
 	rec = func() {
